@@ -852,6 +852,33 @@ def run(ctx: Any, prog: Program) -> None:
                                   'come back in another order than they were written', func=q23, text=f'{q23}: `{base.id}` ordered numerically')
     ctx.check('C06.V23', True, vm, vm.tree, f'{n23} orderings by index text found', func='<module>', text='orderings of tables keyed by index text examined')
 
+    # ---- V25: the collision code of a displacement is decoded by the table that encodes it --------------------------------------------------
+    # Both directions are module tables (`_DISP_COLL_TO_FLAG[flags & COLL_ALL]` written, `_DISP_FLAG_TO_COLL[int]` read): folded, the reader's
+    # table applied to the writer's code has to give the combination back, for all eight combinations.
+    ctx.rule('C06.V25', 'displacement collision flags: the code the exporter writes for a combination is read back as that combination', floor=8)
+    from engine.fold import Folder as _Folder25, FoldError as _FoldError25
+    try:
+        f25 = _Folder25(prog, vm)
+        to_coll, to_flag = f25.global_('_DISP_FLAG_TO_COLL'), f25.global_('_DISP_COLL_TO_FLAG')
+    except (_FoldError25, AnalysisError) as exc:
+        raise AnalysisError(f'V25: displacement flag tables could not be folded: {exc}') from exc
+    if not isinstance(to_coll, list) or not isinstance(to_flag, dict):
+        raise AnalysisError('V25: _DISP_FLAG_TO_COLL / _DISP_COLL_TO_FLAG are not a list and a dict')
+    ed25, pd25 = vm.func('Side._export_displacement'), vm.func('Side._parse_displacement_data')
+    w_use = [x for x in ast.walk(ed25) if isinstance(x, ast.Subscript) and dotted(x.value) == '_DISP_COLL_TO_FLAG']
+    r_use = [x for x in ast.walk(pd25) if isinstance(x, ast.Subscript) and dotted(x.value) == '_DISP_FLAG_TO_COLL']
+    ctx.shape('C06.V25', len(w_use) == 1 and len(r_use) == 1 and 'DispFlag.COLL_ALL' in U(w_use[0].slice), vm, ed25, 'the exporter indexes _DISP_COLL_TO_FLAG with the collision bits, the parser indexes _DISP_FLAG_TO_COLL with the number read',
+              func='Side._export_displacement', text='collision tables used by exporter and parser')
+    unwrap25 = lambda v: getattr(v, 'value', v)          # noqa: E731
+    combos = sorted({unwrap25(v) for v in to_coll})
+    tf = {unwrap25(k): v for k, v in to_flag.items()}
+    node25 = vm.global_assign('_DISP_COLL_TO_FLAG')
+    for c25 in combos:
+        code = tf.get(c25)
+        back = unwrap25(to_coll[code]) if isinstance(code, int) and 0 <= code < len(to_coll) else None
+        ctx.check('C06.V25', back == c25, vm, node25, f'collision combination {c25} is written as "flags" "{code}", which the parser turns into combination {back}'
+                  + (' (no entry: KeyError on export)' if code is None else ''), func='<module>', text=f'collision combination {c25} round trip')
+
     # ---- V22: an optional per-vertex block is written whenever any of the values it carries is set ------------------------------------------
     # `if any(<test on vert> for vert in self._disp_verts): <write blocks from vert.a, vert.b, ...>`: when the block is absent the reader leaves
     # every one of those fields at its default, so the test has to look at every field the block carries - a value set in a field it does not
@@ -1517,6 +1544,8 @@ def elt_token_alternatives(elt: ast.AST, tokens_of_type: Dict[str, int]) -> Opti
 
 
 MUTANTS = [
+    {'id': 'disp_collision_bits_swapped_in_writer_table', 'file': 'vmf.py', 'find': "    v: k for (k, v) in\n    list(enumerate(_DISP_FLAG_TO_COLL))[::-1]\n", 'replace': "    coll: (\n        (0 if DispFlag.COLL_PHYSICS in coll else 2) |\n        (0 if DispFlag.COLL_BULLET in coll else 4) |\n        (0 if DispFlag.COLL_PLAYER_NPC in coll else 8)\n    ) for coll in _DISP_FLAG_TO_COLL\n", 'expect': 'C06.V25'},
+    {'id': 'ok_disp_collision_writer_table_explicit', 'file': 'vmf.py', 'find': "    v: k for (k, v) in\n    list(enumerate(_DISP_FLAG_TO_COLL))[::-1]\n", 'replace': "    coll: (\n        (0 if DispFlag.COLL_PHYSICS in coll else 2) |\n        (0 if DispFlag.COLL_PLAYER_NPC in coll else 4) |\n        (0 if DispFlag.COLL_BULLET in coll else 8)\n    ) for coll in _DISP_FLAG_TO_COLL\n", 'expect': None, 'note': 'negative control: the inverse table built explicitly with the right bits'},
     {'id': 'cordon_corners_sorted_on_read', 'file': 'vmf.py', 'find': "        min_ = bounds.vec('mins', 0, 0, 0)\n        max_ = bounds.vec('maxs', 128, 128, 128)\n", 'replace': "        min_, max_ = Vec.bbox(bounds.vec('mins', 0, 0, 0), bounds.vec('maxs', 128, 128, 128))\n", 'expect': 'C06.V24'},
     {'id': 'strata_points_sorted_by_index_text', 'file': 'vmf.py', 'find': "        points: list[Optional[Vec]] = [None] * block.int('numpts')\n", 'replace': "        by_text: dict = {}\n        for child in block.find_all('point'):\n            ind_s, _, pos_s = child.value.partition(' ')\n            if ind_s.isdecimal():\n                by_text[ind_s] = pos_s\n        ordered = [p for _, p in sorted(by_text.items())]\n        points: list[Optional[Vec]] = [None] * block.int('numpts')\n", 'expect': 'C06.V23'},
     {'id': 'multiblend_gate_blend_only', 'file': 'vmf.py', 'find': "            vert.multi_blend or vert.multi_alpha or vert.multi_colors is not None\n", 'replace': "            vert.multi_blend\n", 'expect': 'C06.V22'},
